@@ -330,7 +330,11 @@ pub fn opcode_for(arch: Arch, f: &Func) -> Option<u32> {
         },
         Arch::A64 => match f.shape {
             Shape::FramePointer | Shape::Frameless => Some(0x0400_0000),
-            Shape::Leaf => Some(0x0200_0000),
+            // frameless: stack size / 16 in bits 12..23
+            Shape::Leaf => {
+                let size: u64 = f.insns.iter().take_while(|i| matches!(i.eff, Eff::SubSp(_))).map(|i| if let Eff::SubSp(n) = i.eff { n } else { 0 }).sum();
+                Some(0x0200_0000 | (((size / 16) as u32) << 12))
+            }
         },
     }
 }
